@@ -101,6 +101,46 @@ Theorem journal_read_in_stretches_is_the_concatenation : forall ord permissive x
 Proof. exact run_journal_a_app. Qed.
 Print Assumptions journal_read_in_stretches_is_the_concatenation.
 
+(* automated transactions: the postings the rules add to an accepted transaction reach their accounts with it, so the
+   balance every LATER assertion is judged on holds them, posting by posting (run_journal_x is the journal loop with the
+   rules' extension; without rules it is run_journal_a; auto_ext models rules `= /^ACCOUNT$/` with lines
+   `[PREFIX$account] MULT`, which the correspondence runs against ledger) *)
+Theorem generated_postings_count_in_later_assertions : forall hist ps gen acct ro c,
+  running (hist ++ posts_to_history (ps ++ gen)) acct ro c ==
+  running (hist ++ posts_to_history ps) acct ro c + running (posts_to_history gen) acct ro c.
+Proof. exact generated_postings_reach_their_accounts. Qed.
+Print Assumptions generated_postings_count_in_later_assertions.
+
+Theorem a_generated_posting_contributes_its_amount : forall acct k a c ro,
+  running (posts_to_history [mkPost acct k (Some a) None None false true false]) acct ro c ==
+  if negb ro || negb (is_virtual (mkPost acct k (Some a) None None false true false)) then at_comm (strip a) c else 0.
+Proof. exact running_one_generated. Qed.
+Print Assumptions a_generated_posting_contributes_its_amount.
+
+Theorem journal_without_rules_is_the_plain_journal : forall ord permissive xs pl hist,
+  run_journal_x (fun _ _ => []) ord permissive pl hist xs = run_journal_a ord permissive pl hist xs.
+Proof. exact run_journal_x_no_rules. Qed.
+Print Assumptions journal_without_rules_is_the_plain_journal.
+
+(* non-vacuity: rule  = /^E$/  [B:$account] -1 / [B:P] 1 ;  x0: E $40.00, Q (elided) ;  x1: [B:E] $0.00 = $-40.00, Q $0.00
+   is accepted, and with = $0.00 instead it is refused *)
+Example ex_assertion_on_generated_account :
+  let usd := Some [36%Z] in
+  let E := [69%Z] in let Qa := [81%Z] in let BE := [66; 58; 69]%Z in
+  let rules := [mkAR E [mkAL [66; 58]%Z true PBalVirtual (mkAmt (-1) 0 false None);
+                        mkAL [66; 58; 80]%Z false PBalVirtual (mkAmt 1 0 false None)]] in
+  let w k acct a asg := mkW (mkPost acct k a None None false false false) asg in
+  let x0 := [w PReal E (Some (mkAmt 40 2 false usd)) None; w PReal Qa None None] in
+  let x1 asg := [w PBalVirtual BE (Some (mkAmt 0 2 false usd)) (Some (mkAmt asg 2 false usd));
+                 w PBalVirtual Qa (Some (mkAmt 0 2 false usd)) None] in
+  (match run_journal_x (auto_ext rules) false false [] [] [x0; x1 (-40)] with
+   | [Ok (Accepted ps0); Ok (Accepted _)] => length ps0 = 4%nat
+   | _ => False end) /\
+  (match run_journal_x (auto_ext rules) false false [] [] [x0; x1 0] with
+   | [Ok (Accepted _); Err EAssertOff] => True
+   | _ => False end).
+Proof. vm_compute. split; [reflexivity | exact I]. Qed.
+
 (* the tie to the source by translation: the lines of /repo/src this model transcribes (harness/translators/src_guards.py
    lists them, with the function each is looked for in) are still there, in the same order, in the source as it is NOW -
    coq/Gen/SourceGuards.v is regenerated on every run and names the guards that are false *)
